@@ -221,6 +221,9 @@ def build(node, env=None, path='r'):
                 np.random.seed(node['np_seed'])
             return done(ds.tile(node['r'], shuffle=True))  # draws from the global numpy generator
         return done(ds.tile(node['r']))
+    if op == 'concat_same':
+        # the very same dataset object r times (what tile(r) is documented to be)
+        return done(ds if node['r'] == 1 else lazy_dataset.concatenate(*([ds] * node['r'])))
     if op == 'concat_shuffled':
         parts = [ds.shuffle() for _ in range(node['r'])]
         return done(parts[0] if len(parts) == 1 else lazy_dataset.concatenate(*parts))
